@@ -188,6 +188,10 @@ Theorem C09_module_total : forall defs main dt mt,
     exists toks, module_toks module_layout defs_joiner defs main = Some toks.
 Proof. exact generated_module_total. Qed.
 
+Theorem C09_module_always : forall defs main,
+    exists toks, module_toks module_layout defs_joiner defs main = Some toks.
+Proof. exact generated_module_always. Qed.
+
 Print Assumptions C09_module_names_char.
 Print Assumptions C09_module_ordered.
 Print Assumptions C09_module_prune.
@@ -198,6 +202,7 @@ Print Assumptions C09_module_relex.
 Print Assumptions C09_module_layout.
 Print Assumptions C09_module_executes.
 Print Assumptions C09_module_total.
+Print Assumptions C09_module_always.
 
 (* ------------------------------------------------------------------ the required list, there and back
    (the statement's "up to ... required-list order"): the generator takes defaulted properties out of
@@ -215,13 +220,18 @@ Theorem C09_required_roundtrip_only_if : forall req props r x,
 Proof. exact required_roundtrip_only_if. Qed.
 
 Theorem C09_no_required_all_required : forall props,
-    defaulted props = [] ->
     final_required None props = Some None /\ back_required (map fst props) props = map fst props.
 Proof. exact no_required_all_required. Qed.
+
+(* the generator produces a class statement for every class description (a property with a default in a
+   schema without a required list included) *)
+Theorem C09_generator_total : forall c, exists toks, class_toks c = Some toks.
+Proof. exact class_toks_total. Qed.
 
 Print Assumptions C09_required_roundtrip.
 Print Assumptions C09_required_roundtrip_only_if.
 Print Assumptions C09_no_required_all_required.
+Print Assumptions C09_generator_total.
 
 (* ------------------------------------------------------------------ refutations of the full statement *)
 
@@ -230,12 +240,6 @@ Definition all_printable (c : N) : bool := true.
 Definition one_prop_class (f : jfield) (req : option (list pystr)) : jclass :=
   {| c_name := s2p "K"; c_description := None; c_closed := false; c_required := req;
      c_props := [(s2p "p", f)] |}.
-
-(* a property with a default in a schema without a required list: the generator raises *)
-Theorem C09_refuted_crash : exists c, class_toks c = None.
-Proof.
-  exists (one_prop_class (FString [] None (Some (DScalar (LStr (s2p "x"))))) None). reflexivity.
-Qed.
 
 (* the raw disciplines, whatever site uses them *)
 Theorem C09_refuted_WrapVal : exists s,
@@ -255,12 +259,11 @@ Proof. apply lex_break. reflexivity. Qed.
 Theorem C09_statement_refuted : ~ C09_statement.
 Proof.
   intro H.
-  destruct (H all_printable (one_prop_class (FString [] None (Some (DScalar (LStr (s2p "x"))))) None)
-              eq_refl) as [toks [E _]].
-  discriminate.
+  destruct (H all_printable (one_prop_class (FString [] None (Some (DScalar (LStr (s2p "a'b"))))) None)
+              eq_refl) as [toks [E R]].
+  vm_compute in E. injection E as <-. vm_compute in R. discriminate.
 Qed.
 
-Print Assumptions C09_refuted_crash.
 Print Assumptions C09_refuted_WrapVal.
 Print Assumptions C09_refuted_TripleQuoted.
 Print Assumptions C09_refuted_keyword_name.
